@@ -67,7 +67,7 @@ def main(run):
             alpha = rnd.choice([Q(1, 3), Q(1, 2), Q(1), Q(1, 1000)])
         else:
             alpha = rnd.choice([0.5, 0.25, 1.0, 0.125])
-        mode = rnd.choice(["random", "random", "zero-sum-pairs", "all-zero", "single-key", "cancel-late"])
+        mode = rnd.choice(["random", "random", "zero-sum-pairs", "all-zero", "single-key", "cancel-late", "spike"])
         sc = rnd.choice([1.0, 1.0, 2.0 ** -40, 2.0 ** -60, 2.0 ** 40]) if typ in ("float", "np64", "np32", "Q", "arr0d") else 1.0
         base = ExponentialSmoothingTracker(alpha) if dyn else WelfordTracker()
         mt, twin = MultiValueTracker(base), MultiValueTracker(base)
@@ -86,6 +86,9 @@ def main(run):
             if mode == "random":
                 ks = [k for k in keys if rnd.random() < 0.6]
                 upd = {k: rnd.randrange(-20, 21) for k in ks}
+            elif mode == "spike":        # one huge transient value early on, ordinary magnitudes afterwards (sums must not remember the spike)
+                ks = [k for k in keys if rnd.random() < 0.7] or [keys[0]]
+                upd = {k: (rnd.choice([1, -1]) * 3 * 10 ** 9 if t == 1 and k == ks[0] else rnd.randrange(1, 21)) for k in ks}
             elif mode == "zero-sum-pairs":
                 v = rnd.randrange(-20, 21)
                 upd = {keys[0]: v, keys[1]: -v}
@@ -96,6 +99,19 @@ def main(run):
             else:   # cancel-late: second key appears late with values that cancel the first key's statistic
                 v = rnd.randrange(1, 9)
                 upd = {keys[0]: v} if t < 2 else {keys[0]: 0, keys[1]: 0}
+            if h % 5 == 3 and t in (2, 7):
+                # checkpoint: the history continues on a deep copy / pickle round trip; the original is fed other values
+                import copy
+                import pickle
+                old_mt = mt
+                try:
+                    mt = copy.deepcopy(mt) if t == 2 else pickle.loads(pickle.dumps(mt))
+                except Exception as ex:
+                    run.violation("update-raises", f"hist#{h}: {'deepcopy' if t == 2 else 'pickle round trip'} of the tracker raised {type(ex).__name__}: {ex}",
+                                  {"type": typ, "history": hist, "checkpoint": True})
+                    break
+                mt_update = None
+                old_mt.update({keys[0]: conv(typ, 9, sc) if typ != "int" else 9})
             hist.append(upd)
             real = {k: conv(typ, v, sc) for k, v in upd.items()}
             ctype = rnd.choice(["dict", "dict", "OrderedDict", "defaultdict-nonzero"])
@@ -130,7 +146,7 @@ def main(run):
             eps = 1.2e-7 if typ == "np32" else 2.3e-16
             for k in seen_keys:
                 e, g = exp[k], got[k]
-                okv = (g == e) if exactmode else abs(float(g) - float(e)) <= 64 * (t + 2) * eps * (256 if typ == "np_u8" else 21) * sc
+                okv = (g == e) if exactmode else abs(float(g) - float(e)) <= 64 * (t + 2) * eps * (256 if typ == "np_u8" else 21 if mode != "spike" else 3e9) * sc
                 if not okv:
                     run.violation("per-key-value", f"{tag}: key {k!r} reports {g!r}, reference {e!r}", replay)
                     ok_hist = False
